@@ -18,12 +18,14 @@ open Sdmmc.Lemmas.WriteSet (flushLicence infoLicence writeLicence DirBlock FreeA
 
 /-! ### The object and the calls that target it -/
 
-/-- `x` is a file object of directory `h`, and no open file that sits at it has unflushed changes. -/
+/-- `x` is a file object of directory `h`, and every open file that sits at it has no unflushed changes or a record
+that agrees with the slot in first cluster and size. -/
 structure Obj (s : Mgr) (gh : Ghost) (h : Nat) (x : Slot) : Prop where
   dir : h ∈ dirIds gh.dirs
   mem : x ∈ objects h (dirSlots gh.vol s.dev.disk gh.G h)
   file : isDirE x = false
-  quiet : ∀ f, f ∈ s.files → fkey f = spos x → f.dirty = false
+  quiet : ∀ f, f ∈ s.files → fkey f = spos x →
+    f.dirty = false ∨ (sCluster gh.vol.fatType x = f.entry.cluster ∧ sSize x = f.entry.size)
 
 /-- The call targets the file named `N` of directory `h`, whose slot sits at position `pos` (block, byte offset):
 `open_file_in_dir` of (a spelling of) that name through a handle of that directory in a TRUNCATING mode
@@ -35,6 +37,13 @@ def Targets (s : Mgr) (h : Nat) (N : Bytes) (pos : Nat × Nat) : Op → Prop
   | .delete dh name => Sfn.createFromStr name = .ok N ∧
       ∃ dir, dir ∈ s.dirs ∧ dir.rawDirectory = dh ∧ dirIdOf dir.cluster = h
   | .write hd _ => ∃ f, f ∈ s.files ∧ f.rawFile = hd ∧ fkey f = pos ∧ f.mode ≠ .ReadOnly
+  | _ => False
+
+/-- The call is a `flush_file` / `close_file` through the handle of an open file (the record the handle designates:
+the first with that handle) that sits at `pos` and has unflushed changes: it stores that file's record again. -/
+def Reflush (s : Mgr) (pos : Nat × Nat) : Op → Prop
+  | .flush hd => ∃ i f, s.files.findIdx? (·.rawFile = hd) = some i ∧ s.files[i]? = some f ∧ fkey f = pos ∧ f.dirty = true
+  | .closeFile hd => ∃ i f, s.files.findIdx? (·.rawFile = hd) = some i ∧ s.files[i]? = some f ∧ fkey f = pos ∧ f.dirty = true
   | _ => False
 
 /-! ### Chains of the ghost -/
@@ -137,19 +146,20 @@ end
 section
 variable {s : Mgr} {gh : Ghost} {h : Nat} {x : Slot}
 
-/-- No unflushed changes: the record agrees with the slot. -/
+/-- The record of a handle at the slot agrees with the slot. -/
 theorem Obj.eff (hI : VolInv s gh) (hx : Obj s gh h x) : effCluster gh.vol.fatType s.files x = sCluster gh.vol.fatType x := by
   have hM := medX_of_med hI.med
   cases hp : pendOf s.files x with
   | none => exact effCluster_of_none hp
   | some f =>
     obtain ⟨hfm, hk⟩ := pendOf_some_mem hp
-    have hd := hx.quiet f hfm hk
-    obtain ⟨h', hh', A, o, B, hO, hpo, _, _, hcl, _⟩ := file_object hM.tree hfm
-    have ho : o ∈ objects h' (dirSlots gh.vol s.dev.disk gh.G h') := by rw [hO]; simp
-    obtain ⟨_, rfl⟩ := AbsFs.slot_unique hM hh' hx.dir (mem_of_mem_objects ho) (mem_of_mem_objects hx.mem) (hpo.trans hk)
     rw [effCluster_of_pend hp]
-    exact ((hcl hd).1).symm
+    rcases hx.quiet f hfm hk with hd | hd
+    · obtain ⟨h', hh', A, o, B, hO, hpo, _, _, hcl, _⟩ := file_object hM.tree hfm
+      have ho : o ∈ objects h' (dirSlots gh.vol s.dev.disk gh.G h') := by rw [hO]; simp
+      obtain ⟨_, rfl⟩ := AbsFs.slot_unique hM hh' hx.dir (mem_of_mem_objects ho) (mem_of_mem_objects hx.mem) (hpo.trans hk)
+      exact ((hcl hd).1).symm
+    · exact hd.1.symm
 
 theorem Obj.memSlots (hx : Obj s gh h x) : x ∈ dirSlots gh.vol s.dev.disk gh.G h := mem_of_mem_objects hx.mem
 
